@@ -54,6 +54,10 @@ pub const CLOSED_POOL: &[&str] = &[
     "😀", "👍🏽", "❤\u{fe0f}", "👩\u{200d}👩\u{200d}👧", "🇩🇪", "한", "𝄞", "ß", "o\u{308}", "A",
 ];
 
+/// one extended grapheme cluster of 261 UTF-8 bytes (a base letter with 130 combining marks):
+/// clusters have no upper size, unlike code points; a stable cluster like the pool's
+pub const GIANT: &str = "e\u{301}\u{301}\u{301}\u{301}\u{301}\u{301}\u{301}\u{301}\u{301}\u{301}\u{301}\u{301}\u{301}\u{301}\u{301}\u{301}\u{301}\u{301}\u{301}\u{301}\u{301}\u{301}\u{301}\u{301}\u{301}\u{301}\u{301}\u{301}\u{301}\u{301}\u{301}\u{301}\u{301}\u{301}\u{301}\u{301}\u{301}\u{301}\u{301}\u{301}\u{301}\u{301}\u{301}\u{301}\u{301}\u{301}\u{301}\u{301}\u{301}\u{301}\u{301}\u{301}\u{301}\u{301}\u{301}\u{301}\u{301}\u{301}\u{301}\u{301}\u{301}\u{301}\u{301}\u{301}\u{301}\u{301}\u{301}\u{301}\u{301}\u{301}\u{301}\u{301}\u{301}\u{301}\u{301}\u{301}\u{301}\u{301}\u{301}\u{301}\u{301}\u{301}\u{301}\u{301}\u{301}\u{301}\u{301}\u{301}\u{301}\u{301}\u{301}\u{301}\u{301}\u{301}\u{301}\u{301}\u{301}\u{301}\u{301}\u{301}\u{301}\u{301}\u{301}\u{301}\u{301}\u{301}\u{301}\u{301}\u{301}\u{301}\u{301}\u{301}\u{301}\u{301}\u{301}\u{301}\u{301}\u{301}\u{301}\u{301}\u{301}\u{301}\u{301}\u{301}\u{301}\u{301}\u{301}\u{301}\u{301}\u{301}";
+
 pub fn is_ws_str(s: &str) -> bool {
     !s.is_empty() && s.chars().all(char::is_whitespace)
 }
@@ -105,11 +109,15 @@ pub fn self_test_pool() -> Result<(), String> {
             return Err(format!("{c:?} is not whitespace"));
         }
     }
-    for a in CLOSED_POOL {
+    if GIANT.len() < 256 {
+        return Err("the giant cluster is shorter than 256 bytes".into());
+    }
+    let pool: Vec<&str> = CLOSED_POOL.iter().copied().chain(std::iter::once(GIANT)).collect();
+    for a in &pool {
         if a.graphemes(true).count() != 1 {
             return Err(format!("pool element {a:?} is not a single cluster"));
         }
-        for b in CLOSED_POOL {
+        for b in &pool {
             let s = format!("{a}{b}");
             if s.graphemes(true).collect::<Vec<_>>() != vec![*a, *b] {
                 return Err(format!("pool not closed for {a:?}+{b:?}"));
@@ -147,6 +155,20 @@ pub fn frag() -> impl Strategy<Value = String> {
         1 => select(NFKC_FRAGS).prop_map(str::to_string),
         1 => any::<char>().prop_map(|c| c.to_string()),
     ]
+    .prop_flat_map(|f| prop_oneof![200 => Just(f), 1 => Just(GIANT.to_string())])
+}
+
+/// `s` with, in one case of `one_in`, the giant cluster inserted at a cluster boundary
+pub fn with_giant(s: BoxedStrategy<String>, one_in: u32) -> BoxedStrategy<String> {
+    prop_oneof![
+        one_in - 1 => s.clone(),
+        1 => (s, any::<u16>()).prop_map(|(t, i)| {
+            let cl: Vec<&str> = t.graphemes(true).collect();
+            let k = crate::engine::idx16(i, cl.len() + 1);
+            format!("{}{}{}", cl[..k].concat(), GIANT, cl[k..].concat())
+        }),
+    ]
+    .boxed()
 }
 
 /// arbitrary Unicode text (code-point domain): fragments, sometimes a fully random string
@@ -182,7 +204,10 @@ pub fn nonws_char() -> impl Strategy<Value = String> {
 }
 
 pub fn stable_cluster() -> impl Strategy<Value = String> {
-    select(CLOSED_POOL).prop_map(str::to_string)
+    prop_oneof![
+        150 => select(CLOSED_POOL).prop_map(str::to_string),
+        1 => Just(GIANT.to_string()),
+    ]
 }
 
 /// one non-whitespace "character" for the given mode: a code point (anything) or a pool cluster
